@@ -16,6 +16,6 @@ mkdir -p "$work/vd"; cp -r "$(dirname "$0")/../known_findings.json" "$(dirname "
 set +e
 VERIF_DIR="$work/vd" "$work/vcheck" run -prop "$id" -tier "$tier" -seed "$seed" > "$work/out.txt" 2>&1
 rc=$?
-grep -E "^(VIOLATION|KNOWN-FINDING|INCONCLUSIVE|$id tier)" "$work/out.txt" | cut -c1-400 | head -${SEEDRUN_LINES:-12}
+{ grep -E "^VIOLATION" "$work/out.txt"; grep -E "^(KNOWN-FINDING|INCONCLUSIVE|$id tier)" "$work/out.txt"; grep -iE "^(#|.*cannot|.*undefined)" "$work/out.txt" | head -3; } | cut -c1-400 | head -${SEEDRUN_LINES:-12}
 echo "exit=$rc"
 exit $rc
